@@ -479,9 +479,24 @@ def check_dtype_gates(ctx: Context, rep, rule: str) -> None:
     sv = ctx.fn("sedpack.io.shard.shard_writer_flatbuffer:"
                 "ShardWriterFlatBuffer.save_numpy_vector_as_bytearray")
     wmod = sv.module
+    # locals that name the declared dtype (`declared = attribute.dtype`)
+    from sa.valuation import single_defs as _sd18
+    dt_aliases = [k for k, v in _sd18(sv).items()
+                  if dotted(v) == "attribute.dtype"]
     for d in ("str", "bytes"):
         ev = dtypeval.DtypeEval("attribute.dtype", d, wmod.globals)
-        cfg_s = CFG(sv, env={"attribute.dtype": d}, oracle=ev.oracle)
+        ev_alias = [dtypeval.DtypeEval(a_, d, wmod.globals) for a_ in dt_aliases]
+
+        def oracle_(e, ev=ev, ev_alias=ev_alias):
+            r = ev.oracle(e)
+            for ea in ev_alias:
+                if r is None:
+                    r = ea.oracle(e)
+            return r
+
+        env_ = {"attribute.dtype": d}
+        env_.update({a_: d for a_ in dt_aliases})
+        cfg_s = CFG(sv, env=env_, oracle=oracle_)
         live = cfg_s.reachable([cfg_s.entry],
                                follow=lambda a, b, lab: lab != "exc")
         builder_calls = [n for n in cfg_s.calls() if n in live and isinstance(
